@@ -5,6 +5,7 @@
 
 mod ast;
 mod ops_api;
+mod ops_engine;
 mod report;
 mod rng;
 mod util;
@@ -47,6 +48,11 @@ fn main() {
             println!("{}", regress::Regex::new(&pat).is_ok());
             return;
         }
+        "engine" => {
+            let focus = arg(&args, "--focus").expect("--focus");
+            ops_engine::engine(&mut rep, &focus, n, seed, thorough)
+        }
+        "c19" => ops_engine::c19(&mut rep, n, seed, thorough),
         "c09" => ops_api::c09(&mut rep, n, seed),
         "c11" => ops_api::c11(&mut rep, &aux, thorough, seed),
         "c12sets" => ops_api::c12_sets(&mut rep, n, seed),
